@@ -450,7 +450,7 @@ fn kv_ref_update(position: usize, playing: bool, lp: Option<(usize, usize)>, tue
 	(pushed, position, p2, pl2, tue2)
 }
 
-// @h prop=C04,C01,C11 tier=quick kind=main timeout=600
+// @h prop=C04,C01,C11,C03 tier=quick kind=main timeout=600
 // @bounds ONE callback of one frame at rate +1 (device rate == sound rate) from ANY state: any slice of the 4-frame buffer, any transport position/playing flag/loop region satisfying the transport invariant, forwards or reverse, any resampler window (small-integer frames, arbitrary indices), any drain counter
 // @funcs StaticSound::process, StaticSound::update_position, StaticSound::push_frame_to_resampler, StaticSound::is_playing_backwards, Resampler::{get,push_frame,empty,current_frame_index}, Transport::{increment_position,decrement_position}, frame_at_index, num_frames, interpolate_frame, Frame::panned, Decibels::as_amplitude
 // @catches output not the frame in window slot 1 (added latency / wrong slot); pushed frame read relative to the buffer instead of the slice or outside it; position stepped twice or not at all; Stopped reported early/late; drain counter off by one
@@ -475,6 +475,14 @@ fn c04_static_one_callback_from_any_state() {
 	assert!(sound.fractional_position == 0.0);
 	assert!(sound.finished() == (!pl2 && tue2 == 0), "Stopped exactly when the end was reached and the window has drained");
 	assert!(sound.shared.state() == if sound.finished() { PlaybackState::Stopped } else { PlaybackState::Playing });
+	// liveness, inductively: without a loop region a ranking function strictly decreases with every frame until Stopped
+	if lp.is_none() {
+		let n = slice.1 - slice.0;
+		let rank = |pos: usize, pl: bool, t: usize| if pl { (if reverse { pos } else { n - pos }) + 6 } else { t };
+		let before = rank(position, playing, tue);
+		let after = rank(p2, pl2, tue2);
+		assert!(sound.finished() == (after == 0) && (before == 0 || after < before), "every finite non-looping sound reaches Stopped: the distance to it shrinks with every frame");
+	}
 	kani::cover!(playing && reverse && lp.is_some(), "w:reverse-loop");
 	kani::cover!(!playing && tue == 1, "w:last-drain-step");
 	kani::cover!(playing && !reverse && position + 1 == slice.1 - slice.0, "w:reaches-end");
@@ -670,4 +678,47 @@ fn c11_static_two_frames_one_chunk_or_two() {
 	kani::cover!(_playing && _lp.is_some(), "w:looping");
 	kani::cover!(_position + 1 == _slice.1 - _slice.0 && _lp.is_none(), "w:reaches-end-inside-the-two-frames");
 	std::mem::forget(s1); std::mem::forget(s2);
+}
+
+// ---------------------------------------------------------------------------------------------
+// C05: a sound scheduled on a clock time starts in the chunk in which the clock reaches it
+// ---------------------------------------------------------------------------------------------
+// @h prop=C05,C03 tier=quick kind=main timeout=600
+// @bounds a StaticSound in any playing transport/resampler state waiting on StartTime::ClockTime(target) over a real Arena<Clock> of capacity 1: clock present or gone, ticking or paused, clock time and target symbolic (ticks <= 2^40, fractions in [0,1)); one callback of one frame
+// @funcs StaticSound::process, StartTime::update, Info::when_to_start
+// @catches a scheduled sound starting early (clock still short of the time at the end of the buffer, or paused), starting a buffer late (not in the buffer in which the clock has reached the time), or not being cancelled when the clock no longer exists
+// @requires kv_clock_force.rs
+#[kani::proof]
+#[kani::unwind(10)]
+fn c05_scheduled_sound_starts_in_the_buffer_in_which_the_clock_reaches_its_time() {
+	let (mut sound, w, _position, _playing, _lp, _tue, _slice, _reverse) = kv_any_sound(1.0, 0.0);
+	let mut clocks: Arena<Clock> = Arena::new(1);
+	let key = clocks.controller().try_reserve().unwrap();
+	let id = crate::clock::ClockId(key);
+	let (present, ticking): (bool, bool) = (kani::any(), kani::any());
+	let (ticks, tt): (u64, u64) = (kani::any(), kani::any());
+	let (fraction, tf): (f64, f64) = (kani::any(), kani::any());
+	kani::assume(ticks <= (1 << 40) && tt <= (1 << 40) && fraction >= 0.0 && fraction < 1.0 && tf >= 0.0 && tf < 1.0);
+	if present {
+		let mut c = Clock::without_handle(Value::Fixed(crate::clock::ClockSpeed::TicksPerSecond(1.0)));
+		c.kv_force(ticking, ticks, fraction);
+		let r = clocks.insert_with_key(key, c); std::mem::forget(r);
+	}
+	let a = KvArenas::empty();
+	let info = Info::new(&clocks, &a.1, &a.2, None);
+	sound.start_time = StartTime::ClockTime(crate::clock::ClockTime { clock: id, ticks: tt, fraction: tf });
+	let before = kv_pos(&sound);
+	let mut out = [Frame::new(7.0, 7.0); 1];
+	sound.process(&mut out, 1.0, &info);
+	let reached = ticks > tt || (ticks == tt && fraction >= tf);
+	if !present {
+		assert!(out[0] == Frame::ZERO && sound.finished(), "scheduled on a clock that no longer exists: cancelled (Stopped)");
+	} else if ticking && reached {
+		assert!(out[0] == w[1].frame && sound.start_time == StartTime::Immediate, "starts in the very buffer in which the clock has reached the time");
+	} else {
+		assert!(out[0] == Frame::ZERO && kv_same(&before, &kv_pos(&sound)) && !sound.finished(), "never early: silent and still while the clock is short of the time or paused");
+	}
+	kani::cover!(present && ticking && ticks == tt && fraction == tf, "w:exactly-on-time");
+	kani::cover!(present && !ticking && reached, "w:reached-but-paused");
+	std::mem::forget(sound); std::mem::forget(clocks);
 }
